@@ -106,6 +106,46 @@ def gillespie_part(chk, sis, entry):
 
 _F = {}
 
+# hand-picked weighted scenarios beyond the exhaustive node bound: the unique heaviest candidate leaves the
+# candidate set while the remaining weights' most frequent value is below their maximum (needs >= 4 candidates)
+SPECIAL = [
+    # (n, w over pairs (1,2),(1,3),(1,4),(1,5),(2,3),..., g, tau, gam, initial statuses)
+    (5, (3, 2, 1, 1, 0, 0, 0, 0, 0, 0), (1, 1, 1, 1, 1), 2, 0, "ISSSS"),
+    (5, (3, 2, 1, 1, 0, 0, 0, 0, 0, 0), (1, 1, 1, 1, 1), 2, 1, "ISSSS"),
+    (5, (6, 3, 1, 1, 0, 0, 0, 0, 0, 0), (2, 1, 1, 1, 1), 1, 1, "ISSSS"),
+    (4, (1, 1, 1, 1, 1, 1), (5, 3, 1, 1), 0, 1, "IIII"),
+    (4, (1, 1, 1, 1, 1, 1), (5, 3, 1, 1), 1, 2, "IIIS"),
+]
+
+
+def special_part(chk, sis, entry):
+    from harness import master
+    sg = netepi.SpecGraph(5)
+    tasks = []
+    for (n, w, g, tau, gam, st0) in SPECIAL:
+        trans, res = master.emit_one(n, w, g, tau, gam, sis)
+        chk.add_tlc("NetEpiOne: hand-picked weighted scenario n=%d w=%r g=%r" % (n, w, g), res)
+        key = (tuple(w), tuple(g), tau, gam)
+        d = sg.trans.setdefault(key, {})
+        # emit_one returns (st2, real rate); the walk wants (kind, u, v, rate numerator, st2): re-read the records
+        for rec in res.printed("E"):
+            _, w_, g_, t_, ga_, st, st2, ev = rec
+            d.setdefault(tuple(st), []).append((ev[0], ev[1], ev[2], ev[3], tuple(st2)))
+        t = {"key": key, "st0": tuple(st0), "sis": sis, "weighted": True, "max_leaves": 200000}
+        if sis:
+            t["horizon"] = 4 if n >= 5 else 5
+        tasks.append(t)
+    b1.SG = sg
+    for t, r in zip(tasks, pool_map(b1.run_scenario, tasks)):
+        chk.cov["evaluations"] += r["leaves"] + r["arr"]
+        chk.cov["traces_validated_against_impl"] += r["leaves"]
+        chk.cov["distinct_nontrivial"] += 1
+        chk.part(entry + " hand-picked weighted", scenarios=1, leaves=r["leaves"], events=r["events"])
+        for p in r["problems"]:
+            chk.violation("%s|%s|%s" % (entry, p["kind"], "weighted-special"),
+                          p["detail"] + (" after history %r" % (p["history"],) if "history" in p else ""),
+                          {"entry": entry, "task": t, "problem": p})
+
 
 def _stat_chunk(arg):
     """one chunk of seeded runs of fast_SIR / fast_SIS / Gillespie: histogram of the node-state vector at time T"""
@@ -243,6 +283,7 @@ def main(argv=None, sis=False):
     common.import_eon()
     EoN = common.import_eon()
     gillespie_part(chk, sis, "Gillespie_SIS" if sis else "Gillespie_SIR")
+    special_part(chk, sis, "Gillespie_SIS" if sis else "Gillespie_SIR")
     fast_part(chk, sis, EoN)
     rule = ("every (weighted graph, rate pair, initial status vector with >=1 infected node) of the TLC-emitted NetEpi state graph is one scenario; "
             "the implementation's complete decision tree under the scripted random source is enumerated (leaves = evaluations) and compared at every "
